@@ -210,6 +210,13 @@ func concurrentPhase(c *gg.Case, goroutines, perG int) (string, string) {
 		}(gi)
 	}
 	wg.Wait()
+	if bt.Rec.IsUnbounded() {
+		sig := "c01:concurrent"
+		if goroutines == 1 {
+			sig = "c01:rerun"
+		}
+		return "in a further run of the same compiled graph " + gg.UnboundedMsg, sig
+	}
 	if bt.Rec.Over { // all goroutines of the phase have finished (wg)
 		return "", "" // a value outgrew the size budget of the harness lambdas: no verdict
 	}
